@@ -18,6 +18,8 @@ from common import (NCPU, REPO, SPECS, Infra, Scratch, Verdict, build_harness, h
                     write_evidence)
 
 PROP = "C17"
+# a bounded heap: with the JVM default (a quarter of the RAM) these short runs spend most of their time faulting in fresh pages
+JAVA = "-Xmx4g"
 
 
 def _paths(ev, root):
@@ -80,84 +82,84 @@ def run(tier):
 
 
 def _run(tier, s, pool, v, t0):
-    if True:
-        h = build_harness(s)
-        # the small-scope lemma (the structural predicate means what the property says): both scopes run beside the
-        # harness and the trace validation, results are collected before the verdict
-        for f in os.listdir(SPECS):
-            if f.endswith((".tla", ".cfg")):
-                shutil.copyfile(os.path.join(SPECS, f), s.file(f))
-        lemma_runs = [(cfg, pool.submit(run_tlc, s, "Heap", cfg=cfg, timeout=900, workers=max(2, NCPU // 2), copy=False))
-                      for cfg in ("HeapSmall.cfg", "HeapSmallSlice.cfg")]
-        # the real code
-        per_type = 50 if tier == "thorough" else 5
-        max_events = 3000 if tier == "thorough" else 400
-        rep = harness_json(h, ["c17", "-events", s.file("ev.ndjson"), "-seed", str(seed()), "-values-per-type", str(per_type),
-                               "-max-events", str(max_events), "-repo", REPO], timeout=3600)
-        for n in rep.get("notes", []):
-            v.note("c17: " + n)
-        for x in rep["violations"]:
-            v.violation(x["sig"], x["detail"], x["replay"])
-        # T: TLC evaluates Equal / Independent on the recorded pairs of real object graphs
-        tr = require_ok(run_tlc(s, "HeapTrace", marker='"REJECTED"', workers=1, copy=False, env=dict(TRACE=s.file("ev.ndjson")),
-                                timeout=3600), "HeapTrace")
-        out = marker_json(tr.lines, '"REJECTED"')
-        if not out:
-            raise Infra("HeapTrace produced no verdict")
-        out = out[0]
-        events = [json.loads(l) for l in open(s.file("ev.ndjson"))]
-        if out["n"] != len(events) or out["n"] != rep["extra"]["events"] or out["n"] == 0:
-            raise Infra("HeapTrace judged %s events, the harness wrote %d" % (out["n"], len(events)))
-        if out["malformed"]:
-            raise Infra("snapshots %s are not well-formed heaps (an immutable node overlaps a mutable one): the extraction "
-                        "is at fault, not the library" % out["malformed"][:10])
-        witness = out["witness"] if isinstance(out["witness"], dict) else {}
-        for i in out["shared"]:
-            e = events[i - 1]
-            path, ws = _sharing_point(e, witness.get(str(i), []))
-            v.violation("c17|%s|%s|shared" % (e["type"], path),
-                        "Heap.tla: the copy returned by %s.%s shares mutable memory with its original (%s value); shared nodes at %s" % (
-                            e["type"], e["method"], e["variant"], ws),
-                        dict(check="c17-trace", type=e["type"], method=e["method"], variant=e["variant"], value=e["value"], seed=e["seed"],
-                             values_per_type=per_type))
-        for i in out["noteq"]:
-            e = events[i - 1]
-            v.violation("c17|%s|%s|not-equal" % (e["type"], _first_diff(e)),
-                        "Heap.tla: the copy returned by %s.%s is not Equal to its original (%s value)" % (e["type"], e["method"], e["variant"]),
-                        dict(check="c17-trace", type=e["type"], method=e["method"], variant=e["variant"], value=e["value"], seed=e["seed"],
-                             values_per_type=per_type))
-        lem = []
-        for cfg, fut in lemma_runs:
-            r = require_ok(fut.result(), "Heap/" + cfg)
-            lem.append(r)
-            log("TLC Heap/%s: lemma holds on %d states (%.1fs)" % (cfg, r.distinct, r.wall))
-        x = rep["extra"]
-        log("c17: %d types / %d deep-copy methods scanned and exercised, %d values, %d (value, copy) pairs, %d locations mutated "
-            "(%d mutations both ways), %d distinct (type, path) locations; %d snapshots (%d nodes) judged by TLC: %d not equal, %d sharing; "
-            "%d harness violations" % (x["types_exercised"], x["methods_exercised"], rep["evaluations"], x["pairs"],
-                                       x["locations_mutated_copy_side"], x["mutations_both_directions"], rep["distinct"], out["n"],
-                                       x["event_nodes"], len(out["noteq"]), len(out["shared"]), len(rep["violations"])))
-        unlisted = v.finish()
-        cov = dict(evaluations=rep["evaluations"], distinct_nontrivial=rep["distinct"],
-                   rule="every type with a DeepCopy / DeepCopyInto / DeepCopyMessage / DeepCopyDataType method found by parsing "
-                        "*/deepcopy_generated.go and primitive/uuid.go x {fully populated, all-nil, all-empty, mixed nil/empty/full, random} "
-                        "values (5 in quick, 50 in thorough), one more fully populated value per Message / DataType implementation for every "
-                        "type with an interface slot (nested data types to depth 3), every Catalogue sample of every protocol version on its "
-                        "own and inside a populated Body and Frame, and a nil receiver; every method is called on every value; the copy must be "
-                        "structurally equal (nil and empty distinguished) and the receiver unchanged; every mutable location reachable from the "
-                        "copy (scalars, bytes, slice elements, map entries overwritten / deleted / inserted, pointer / slice header / map / "
-                        "interface words) is overwritten and the original's digest must not change, and the reverse; a stride sample of the "
-                        "pairs is snapshotted (reflect+unsafe: regions, edges, labels) and judged by TLC with Heap!Equal and "
-                        "Heap!Independent; evaluations = (type, value) pairs; distinct = distinct (type, generalised field path) locations "
-                        "mutated",
-                   samples=rep["samples"], extra=x, tlc_lemma_states=[r.distinct for r in lem], tlc_events_validated=out["n"],
-                   tlc_rejected=dict(not_equal=len(out["noteq"]), shared=len(out["shared"])), notes=rep.get("notes", []),
-                   known_findings=sorted(v.known_hits))
-        write_evidence(PROP, tier, "exploration", cov, time.time() - t0, unlisted,
-                       assumptions=["the reflective snapshot (harness/c17.go) is the trusted projection from Go memory to Heap.tla graphs; "
-                                    "region end points are renumbered order-preservingly",
-                                    "the small-scope lemma is checked for heaps of 3 nodes / 3 cells (own regions) and 2 nodes / 3 cells "
-                                    "(own + backing regions)",
-                                    "types found by the scan but absent from the compiled registry are reported as NOTE and not exercised",
-                                    "values are sampled (seeded), not enumerated"])
-        return unlisted
+    h = build_harness(s)
+    # the small-scope lemma (the structural predicate means what the property says): both scopes run beside the
+    # harness and the trace validation, results are collected before the verdict
+    for f in os.listdir(SPECS):
+        if f.endswith((".tla", ".cfg")):
+            shutil.copyfile(os.path.join(SPECS, f), s.file(f))
+    lemma_runs = [(cfg, pool.submit(run_tlc, s, "Heap", cfg=cfg, timeout=900, workers=max(2, NCPU // 2), copy=False,
+                               java_opts=JAVA))
+                  for cfg in ("HeapSmall.cfg", "HeapSmallSlice.cfg")]
+    # the real code
+    per_type = 50 if tier == "thorough" else 5
+    max_events = 3000 if tier == "thorough" else 400
+    rep = harness_json(h, ["c17", "-events", s.file("ev.ndjson"), "-seed", str(seed()), "-values-per-type", str(per_type),
+                           "-max-events", str(max_events), "-repo", REPO], timeout=3600)
+    for n in rep.get("notes", []):
+        v.note("c17: " + n)
+    for x in rep["violations"]:
+        v.violation(x["sig"], x["detail"], x["replay"])
+    # T: TLC evaluates Equal / Independent on the recorded pairs of real object graphs
+    tr = require_ok(run_tlc(s, "HeapTrace", marker='"REJECTED"', workers=1, copy=False, env=dict(TRACE=s.file("ev.ndjson")),
+                            timeout=3600, java_opts=JAVA), "HeapTrace")
+    out = marker_json(tr.lines, '"REJECTED"')
+    if not out:
+        raise Infra("HeapTrace produced no verdict")
+    out = out[0]
+    events = [json.loads(l) for l in open(s.file("ev.ndjson"))]
+    if out["n"] != len(events) or out["n"] != rep["extra"]["events"] or out["n"] == 0:
+        raise Infra("HeapTrace judged %s events, the harness wrote %d" % (out["n"], len(events)))
+    if out["malformed"]:
+        raise Infra("snapshots %s are not well-formed heaps (an immutable node overlaps a mutable one): the extraction "
+                    "is at fault, not the library" % out["malformed"][:10])
+    witness = out["witness"] if isinstance(out["witness"], dict) else {}
+    for i in out["shared"]:
+        e = events[i - 1]
+        path, ws = _sharing_point(e, witness.get(str(i), []))
+        v.violation("c17|%s|%s|shared" % (e["type"], path),
+                    "Heap.tla: the copy returned by %s.%s shares mutable memory with its original (%s value); shared nodes at %s" % (
+                        e["type"], e["method"], e["variant"], ws),
+                    dict(check="c17-trace", type=e["type"], method=e["method"], variant=e["variant"], value=e["value"], seed=e["seed"],
+                         values_per_type=per_type))
+    for i in out["noteq"]:
+        e = events[i - 1]
+        v.violation("c17|%s|%s|not-equal" % (e["type"], _first_diff(e)),
+                    "Heap.tla: the copy returned by %s.%s is not Equal to its original (%s value)" % (e["type"], e["method"], e["variant"]),
+                    dict(check="c17-trace", type=e["type"], method=e["method"], variant=e["variant"], value=e["value"], seed=e["seed"],
+                         values_per_type=per_type))
+    lem = []
+    for cfg, fut in lemma_runs:
+        r = require_ok(fut.result(), "Heap/" + cfg)
+        lem.append(r)
+        log("TLC Heap/%s: lemma holds on %d states (%.1fs)" % (cfg, r.distinct, r.wall))
+    x = rep["extra"]
+    log("c17: %d types / %d deep-copy methods scanned and exercised, %d values, %d (value, copy) pairs, %d locations mutated "
+        "(%d mutations both ways), %d distinct (type, path) locations; %d snapshots (%d nodes) judged by TLC: %d not equal, %d sharing; "
+        "%d harness violations" % (x["types_exercised"], x["methods_exercised"], rep["evaluations"], x["pairs"],
+                                   x["locations_mutated_copy_side"], x["mutations_both_directions"], rep["distinct"], out["n"],
+                                   x["event_nodes"], len(out["noteq"]), len(out["shared"]), len(rep["violations"])))
+    unlisted = v.finish()
+    cov = dict(evaluations=rep["evaluations"], distinct_nontrivial=rep["distinct"],
+               rule="every type with a DeepCopy / DeepCopyInto / DeepCopyMessage / DeepCopyDataType method found by parsing "
+                    "*/deepcopy_generated.go and primitive/uuid.go x {fully populated, all-nil, all-empty, mixed nil/empty/full, random} "
+                    "values (5 in quick, 50 in thorough), one more fully populated value per Message / DataType implementation for every "
+                    "type with an interface slot (nested data types to depth 3), every Catalogue sample of every protocol version on its "
+                    "own and inside a populated Body and Frame, and a nil receiver; every method is called on every value; the copy must be "
+                    "structurally equal (nil and empty distinguished) and the receiver unchanged; every mutable location reachable from the "
+                    "copy (scalars, bytes, slice elements, map entries overwritten / deleted / inserted, pointer / slice header / map / "
+                    "interface words) is overwritten and the original's digest must not change, and the reverse; a stride sample of the "
+                    "pairs (plus every pair whose regions a pre-screen sees overlapping, e.g. aliased spare capacity) is snapshotted (reflect+unsafe: regions, edges, labels) and judged by TLC with Heap!Equal and "
+                    "Heap!Independent; evaluations = (type, value) pairs; distinct = distinct (type, generalised field path) locations "
+                    "mutated",
+               samples=rep["samples"], extra=x, tlc_lemma_states=[r.distinct for r in lem], tlc_events_validated=out["n"],
+               tlc_rejected=dict(not_equal=len(out["noteq"]), shared=len(out["shared"])), notes=rep.get("notes", []),
+               known_findings=sorted(v.known_hits))
+    write_evidence(PROP, tier, "exploration", cov, time.time() - t0, unlisted,
+                   assumptions=["the reflective snapshot (harness/c17.go) is the trusted projection from Go memory to Heap.tla graphs; "
+                                "region end points are renumbered order-preservingly",
+                                "the small-scope lemma is checked for heaps of 3 nodes / 3 cells (own regions) and 2 nodes / 3 cells "
+                                "(own + backing regions)",
+                                "types found by the scan but absent from the compiled registry are reported as NOTE and not exercised",
+                                "values are sampled (seeded), not enumerated"])
+    return unlisted
